@@ -97,9 +97,10 @@ QuarticOK(e) ==
         /\ Near(BRSub(Val(e.ib), Val(e.ia)), BRSub(Gb, Ga), BRAdd(ma, mb))
 
 PosFinite(b) == IsFinite(b) /\ ~SignBit(b) /\ ~IsZero(b)
+ResultsFinite(e) ==
+    Finite(e.integ) /\ Finite(e.indef) /\ IsFinite(e.fa) /\ IsFinite(e.fb) /\ IsFinite(e.fk) /\ IsFinite(e.ia) /\ IsFinite(e.ib)
 LogIntInScope(e) ==
     /\ Finite(e.p) /\ PosFinite(e.kx) /\ IsFinite(e.ky) /\ PosFinite(e.a) /\ PosFinite(e.b)
-    /\ Finite(e.integ) /\ Finite(e.indef) /\ IsFinite(e.fa) /\ IsFinite(e.fb) /\ IsFinite(e.fk) /\ IsFinite(e.ia) /\ IsFinite(e.ib)
     /\ \A t \in { e.kx, e.a, e.b } : InRange(MagAt(LF!LogIndefMag(Vals(e.p)), Val(t)))
 
 TraceLogInt ==
@@ -107,7 +108,10 @@ TraceLogInt ==
     /\ LET e == Rec[l] IN
        IF ~LogIntInScope(e) THEN TRUE
        ELSE /\ Tally(11, TRUE) /\ Tally(12, e.kx # OneBits /\ e.a # OneBits /\ e.b # OneBits)
-            /\ Judge(IF Len(e.p) = 5 THEN QuarticOK(e) ELSE GeneralOK(e), "log-polynomial integral")
+            \* in-scope inputs (finite, positive, every term of the antiderivative within range at the three points) give
+            \* finite results: a NaN or an infinity is a wrong answer, not a reason to look away
+            /\ Judge(ResultsFinite(e), "non-finite result for in-scope input")
+            /\ Judge(~ResultsFinite(e) \/ (IF Len(e.p) = 5 THEN QuarticOK(e) ELSE GeneralOK(e)), "log-polynomial integral")
 
 \* ---------------------------------------------------------------- C10
 \* LF!QuarticVal / LF!QuarticMag with x = -ln v and R(x) computed once per event.
